@@ -33,7 +33,7 @@ def gen(tier, seed, salt, n_quick, n_thorough, fixed=True):
     # shows; an input list only -- the monitors of the property decide on the current tree
     cov = cov_entries()
     if tier != "thorough":
-        cov = r.sample(cov, min(len(cov), 700))
+        cov = r.sample(cov, min(len(cov), 400))
     for i, e in enumerate(cov):
         o = {"latent_time": True, "max_stack_depth": 10, "relative_match_len": 1.0, "scorer": "shipped", "debug": False}
         cases.append({"g": "G4/coverage-corpus", "t": e["t"], "ts": e["ts"], "o": o})
